@@ -40,6 +40,17 @@ func vfRoutingMicroScripts(property string) []vfMicroScript {
 		return &vfRouteScenario{Name: name, NS: 1, NT: 2, Scripts: two, InitHigh: 5, MaxWM: 1, MaxRepeat: 1, InOrder: true, MaxFaults: faults}
 	}
 	switch property {
+	case "C08":
+		// overlapping incarnations on the real handlers; "@baseline" marks the set-up state whose registry the state
+		// reached after the explored steps must equal (same set of live streams, newer incarnations)
+		return []vfMicroScript{
+			{Name: "target-reconnects-while-old-stream-alive", Scenario: base("micro-c08-T", 0), Setup: []string{"openT:1", "openT:2", "openS:1", "@baseline"},
+				Steps: []string{"reopenT:1", "emit:1", "breakOldT:1"}},
+			{Name: "source-reconnects-while-old-stream-alive", Scenario: base("micro-c08-S", 0), Setup: []string{"openT:1", "openT:2", "openS:1", "@baseline"},
+				Steps: []string{"reopenS:1", "emit:1", "breakOldSin:1"}},
+			{Name: "source-stream-ends-then-reopen-fails", Scenario: base("micro-c08-F", 0), Setup: []string{"openT:1", "openT:2", "@baseline", "openS:1"},
+				Steps: []string{"breakSin:1", "failopenS:1", "openS:1", "breakSin:1"}},
+		}
 	case "C04":
 		return []vfMicroScript{
 			// a target stream breaks while a task for it is being routed, then reconnects
@@ -90,6 +101,17 @@ func (e *vfRouteExec) ready(a string) bool {
 		}
 		_, ok := ts.peekLow()
 		return ok
+	case "reopenT":
+		c := e.tgt[n-1].cur()
+		return c != nil && !c.broken && !c.returned
+	case "reopenS":
+		return !e.src[n-1].needsOpen()
+	case "breakOldT":
+		return len(e.tgt[n-1].incoming) >= 2
+	case "breakOldSin":
+		return len(e.src[n-1].incoming) >= 2
+	case "breakSin":
+		return !e.src[n-1].needsOpen()
 	case "openT":
 		c := e.tgt[n-1].cur()
 		return c == nil || c.broken || c.returned
@@ -106,7 +128,12 @@ func vfRoutingMicroBody(ms vfMicroScript, property string) func(s *vrt.Sched) (s
 		e.changed = make(chan struct{})
 		// setup: handlers are managed from the start, so drive them with the scheduler between setup actions
 		s.NoBranch = true
+		var baseline map[string][]string
 		for _, a := range ms.Setup {
+			if a == "@baseline" {
+				baseline = e.registryKeys()
+				continue
+			}
 			if err := e.apply(a); err != nil {
 				return "harness/setup", err.Error(), ""
 			}
@@ -134,6 +161,12 @@ func vfRoutingMicroBody(ms vfMicroScript, property string) func(s *vrt.Sched) (s
 		}
 		s.Detach()
 		synctest.Wait()
+		if property == "C08" && baseline != nil {
+			// the shutdown of the older incarnations has run its course (incl. the 1 s CloseSend guards)
+			time.Sleep(3 * time.Second)
+			synctest.Wait()
+			e.checkRegistry(baseline)
+		}
 		rounds := e.closingPhase(synctest.Wait, 6)
 		e.checkEnd(rounds)
 		var acks []string
@@ -145,6 +178,15 @@ func vfRoutingMicroBody(ms vfMicroScript, property string) func(s *vrt.Sched) (s
 		outcome = strings.Join(acks, "|")
 		if stuck := e.teardown(synctest.Wait); len(stuck) > 0 {
 			e.violate("C08", "handler-stuck-after-shutdown", fmt.Sprint(stuck))
+		} else if property == "C08" {
+			for table, keys := range e.registryKeys() {
+				if len(keys) > 0 {
+					e.violate("C08", "residue/after-all-streams-ended/"+table, fmt.Sprintf("every stream has ended, but the %s table still holds %v", table, keys))
+				}
+			}
+		}
+		if property == "C08" && len(e.panics) > 0 {
+			e.violate("C08", "crash/panic-escapes", fmt.Sprint(e.panics))
 		}
 		for _, v := range e.viol {
 			if v.Property == property || (property == "C04" && v.Property == "C02" && strings.HasPrefix(v.Signature, "task-delivered-0")) {
@@ -152,6 +194,77 @@ func vfRoutingMicroBody(ms vfMicroScript, property string) func(s *vrt.Sched) (s
 			}
 		}
 		return "", "", outcome
+	}
+}
+
+// checkRegistry (C08): after the explored steps the same set of streams is alive as at the baseline (newer
+// incarnations of some of them), so every table of the shard manager must hold entries for the same shards.
+// A missing receiver-side entry is attributed to its cause through the recorded registry operations.
+func (e *vfRouteExec) checkRegistry(baseline map[string][]string) {
+	now := e.registryKeys()
+	newest := func(by string) bool {
+		// by = "T1#0" / "S1#2": is it the newest incarnation of its stream family?
+		var fam byte
+		var idx, inc int
+		if n, _ := fmt.Sscanf(by, "%c%d#%d", &fam, &idx, &inc); n != 3 {
+			return true
+		}
+		if fam == 'T' && idx >= 1 && idx <= len(e.tgt) {
+			return inc == len(e.tgt[idx-1].incoming)-1
+		}
+		if fam == 'S' && idx >= 1 && idx <= len(e.src) {
+			return inc == len(e.src[idx-1].incoming)-1
+		}
+		return true
+	}
+	for table, want := range baseline {
+		got := now[table]
+		if fmt.Sprint(got) == fmt.Sprint(want) {
+			continue
+		}
+		have := map[string]bool{}
+		for _, k := range got {
+			have[k] = true
+		}
+		explained := false
+		for _, k := range want {
+			if have[k] {
+				continue
+			}
+			// a shard that had an entry has none now
+			removeOp, lost := map[string]string{"active-receiver": "unregister-active-receiver", "cancel-func": "remove-cancel-func"}[table], map[string]string{"active-receiver": "active-receiver-lost", "cancel-func": "cancel-func-lost"}[table]
+			if removeOp != "" {
+				e.hmu.Lock()
+				var last *vfRegOp
+				for i := range e.regOps {
+					if e.regOps[i].Shard == k && (e.regOps[i].Op == removeOp || strings.HasPrefix(e.regOps[i].Op, map[string]string{"active-receiver": "register-active", "cancel-func": "set-cancel"}[table])) {
+						last = &e.regOps[i]
+					}
+				}
+				e.hmu.Unlock()
+				if last != nil && last.Op == removeOp && !newest(last.By) {
+					// same defect as the known finding of the call-sequence scenario "receiver-overlap"
+					e.violate("C08", "receiver-overlap/orphaned/"+lost+"/old-cleanup-ran-after-new-entry", fmt.Sprintf("real handlers: %s of shard %s was removed by the deferred cleanup of the older incarnation %s after the newer incarnation had registered its own (operations: %v)", table, k, last.By, e.regOps))
+					explained = true
+					continue
+				}
+			}
+			e.violate("C08", "orphaned/"+table+"-entry-lost", fmt.Sprintf("the same streams are alive as before the reconnect, but shard %s has no %s entry any more (before: %v, now: %v; registry operations: %v)", k, table, want, got, e.regOps))
+			explained = true
+		}
+		for _, k := range got {
+			found := false
+			for _, w := range want {
+				if w == k {
+					found = true
+				}
+			}
+			if !found {
+				e.violate("C08", "residue/"+table+"-entry-of-an-ended-stream", fmt.Sprintf("shard %s has a %s entry although no stream of it is alive (before: %v, now: %v)", k, table, want, got))
+				explained = true
+			}
+		}
+		_ = explained
 	}
 }
 
@@ -232,3 +345,6 @@ func TestVerifC01Micro(t *testing.T) { vfRoutingMicro(t, "C01", "TestVerifC01Mic
 func TestVerifC02Micro(t *testing.T) { vfRoutingMicro(t, "C02", "TestVerifC02Micro") }
 func TestVerifC03Micro(t *testing.T) { vfRoutingMicro(t, "C03", "TestVerifC03Micro") }
 func TestVerifC04Micro(t *testing.T) { vfRoutingMicro(t, "C04", "TestVerifC04Micro") }
+
+// TestVerifC08Routing: overlapping stream incarnations on the real routing handlers (third part of C08).
+func TestVerifC08Routing(t *testing.T) { vfRoutingMicro(t, "C08", "TestVerifC08Routing") }
